@@ -115,9 +115,15 @@ def arc(k, x1, x2):
     L = k.lengthscale.detach()
     rho, w = k.angle.detach(), k.radius.detach()
 
+    delta = getattr(k, "delta_func", None)
+
     def emb(x):
         t = math.pi * rho * x / L
-        return torch.cat([w * torch.sin(t), w * torch.cos(t)], dim=-1)
+        e = torch.cat([w * torch.sin(t), w * torch.cos(t)], dim=-1)
+        if delta is not None:
+            act = delta(x)  # documented: an inactive coordinate embeds to [0, 0]
+            e = e * torch.cat([act, act], dim=-1)
+        return e
 
     return dense(k.base_kernel, emb(x1), emb(x2))
 
